@@ -48,8 +48,10 @@ CLAIMED = {
         'Clamp min(set, p_max - total pin): at most set, at most p_max, minimal, greatest; variable-gain NF: nf_min at '
         'flatmax and nf_max at gain_min (exact unclipped, within 0.01 dB for every accepted datasheet), antitone, dB-for-dB '
         'padding; ASE = G(ase_in + hfB NF); out-of-band channels dropped; flat profile mean = effective gain.',
-        'Fixed-gain / OpenROADM / polynomial / dual-stage NF formulas and the tilted (DGT) profile are tied by '
-        'correspondence only (0.3 dB oracle). Real axioms for the R theorems; NumF~NumR trusted. Open finding: flat DGT + tilt.',
+        'Secant step of the tilted (DGT) profile and the fixed-gain / OpenROADM / polynomial / dual-stage (Friis) NF '
+        'formulas are proved as the code computes them and checked against documentation formulas; the total-gain clause '
+        'under tilt/ripple is judged with a 0.3 dB band. Real axioms for the R theorems; NumF~NumR trusted. Open finding: '
+        'flat DGT + tilt.',
         'DESIGN.md §7 C04'),
     'C06': (
         'Coq proof over a dB-domain Q model of Roadm.propagate, target resolution, per-degree target population and the '
@@ -67,8 +69,9 @@ CLAIMED = {
         'Budget closure from loaded elements through connector/EOL/padding to every amplifier, round2float grid, clamp, '
         '0 before a ROADM, saturation reduction, operator-kept settings and VOA rule proved about Model/PowerDesign.v; '
         'three guarded clauses carry vm_compute refutation witnesses = open findings.',
-        'RamanFiber spans, Multiband_amplifier nodes and SRS tilt are not modelled (such OMS are counted as unsupported); '
-        'NF values and design bands are read from gnpy as inputs.',
+        'Multiband OMS (budget closure per band) and Raman spans (gain estimate as an input) are modelled; SRS tilt is not '
+        '(Raman flag off); NF values, design bands and Raman gain estimates are read from gnpy as inputs. Open finding: '
+        'gain-mode saturation test ignores in_voa.',
         'DESIGN.md §7 C09'),
     'C10': (
         'Coq proof over a Q model of get_node_restrictions / filter_edfa_list_based_on_targets / select_edfa + '
@@ -87,16 +90,18 @@ CLAIMED = {
         'NO_PATH / NO_PATH_WITH_CONSTRAINT / LOOSE fall-back specification of model_route, explicit answers are routes, '
         'reverse path visits the same sites; 2-8 ROADM meshes judged exhaustively, 12-40 site meshes by route_ok + '
         '(leg-wise) potential certificates.',
-        'networkx path enumeration is not modelled (its outputs are judged). Optimality of a validated explicit path is '
-        'checked per instance, not proved. No parallel lines between two sites.',
+        'networkx path enumeration is not modelled (its outputs are judged). Optimality of an explicit answer is proved '
+        'under chain/covered hypotheses whose certificate is evaluated in Coq on every explicit answer. No parallel lines '
+        'between two sites.',
         'DESIGN.md §4(b), §7 C11'),
     'C12': (
         'Proved validators (disjoint_ok on unordered ROADM links, route_ok) + proved-complete exists_disjoint_pair; '
         'faithful models of isdisjoint / short list / deduplicate_disjunctions / requests_aggregation compared per batch',
         'Every returned set of paths is judged in Coq against the groups as declared; DisjunctionError on single pairs is '
         'judged by the complete existence procedure (<= 80 elements); dedup and aggregation groups_preserved proved.',
-        'The five pruning steps of compute_path_dsjctn are not modelled (outputs judged); completeness judged for '
-        'single-pair batches only; multi-group DisjunctionErrors counted, not judged.',
+        'The five pruning steps of compute_path_dsjctn are not modelled (outputs judged); DisjunctionErrors are judged by '
+        'the proved-complete pair / whole-batch existence procedures on the small meshes (bounded search; beyond the bound '
+        'counted, not judged).',
         'DESIGN.md §4(b), §7 C12'),
     'C15': (
         'Coq proof over Z/Q about Model/Oms.v (slot<->frequency, create_oms_bitmap, align_grids, same extent, common range, '
@@ -116,7 +121,7 @@ CLAIMED = {
         'structural converter pairs, full dispatch round trip and idempotence for sim-params/spectrum/service documents, '
         'Edfa alias specification; refutation witnesses for the open findings.',
         'Whole-document round trip proved for all five kinds under canonical key order (what the converters produce); equipment '
-        'with a RamanFiber raman_efficiency block (F16) and Transceiver per_degree_design_bands (F17) are open findings; the '
+        'with a RamanFiber raman_efficiency block is the open finding F16; the '
         'loaders, libyang acceptance and the API section are covered by the oracle and correspondence only.',
         'DESIGN.md §7 C18'),
     'C13': (
@@ -127,8 +132,9 @@ CLAIMED = {
         'History independence and once-each noise accounting of the receiver figures, verdict_fixed_spec, '
         'penalty_outside_blocks, mode_loop_spec / exploration order / selected & converse / no-feasible-mode / no-baudrate, '
         'independence of the loop from amplifier state; threshold-equal decisions are not judged (counted).',
-        'The line-with-state model used for the loop-state theorems is structural (no NLI, simplified ROADM) and tied to '
-        'gnpy by the oracle (in-loop vs fresh figures), not numerically. dB<->linear conversions are harness inputs.',
+        'The line-with-state model used for the loop-state theorems is structural (no NLI, simplified ROADM); its state '
+        'component is tied numerically (amp_history predicts every observed effective_gain to 1e-9 dB), its spectra by the '
+        'in-loop vs fresh oracle. dB<->linear conversions are harness inputs.',
         'DESIGN.md §7 C13'),
     'C16': (
         'Coq proof on a batch model with explicit element state (batch_indep, batch_perm, copy_needed_refuted) + proved '
@@ -137,8 +143,9 @@ CLAIMED = {
         'For every batch, position, spectrum policy and state of the model the non-spectrum result of a request equals '
         'the request alone and the network is unchanged; permutations permute results; the observed behaviour of gnpy is '
         'judged by a validator proved equivalent to its specification plus a field-by-field comparison at 1e-9.',
-        'The theorem is structural; the assurance about gnpy comes from the validator/oracle runs (a sensitivity run '
-        'without deepcopy is reported in the evidence). Spectrum N/M and spectrum blocking reasons are excluded by the property.',
+        'The batch theorems are structural; the assurance about gnpy comes from the validator/oracle runs, the amplifier '
+        'state tie and a sensitivity run without deepcopy. The clause "only the spectrum slots depend on earlier requests" is '
+        'proved by instantiating the spectrum fold of planning with the C14 model (planning_spectrum_is_C14_history).',
         'DESIGN.md §7 C16'),
     'C20': (
         'Coq proof over an executable model of convert.py / service_sheet.py on parsed rows (symbolic uids + injective '
@@ -150,9 +157,9 @@ CLAIMED = {
         'points, one predecessor/successor per line element, Eqpt settings on the amplifier facing the named neighbour; '
         'every broken sanity rule gives a NetworkTopologyError naming the rule; service rows give the stated units, route '
         'list, strictness and one synchronisation vector per disjoint-from entry.',
-        'Not modelled: header recognition and cell reading, per-degree impairment columns, region filter. Route-name '
-        'correction partially modelled. The real .xls parser is exercised by the shipped fixtures only (no xlwt). Open '
-        'finding: Eqpt row on a FUSED site.',
+        'Route-name correction, per-degree impairment columns and header recognition are modelled and proved; not '
+        'modelled: region filter, wrongly typed cells. The real .xls parser is exercised by the shipped fixtures only (no '
+        'xlwt). Open finding: Eqpt row on a FUSED site.',
         'DESIGN.md §7 C20'),
     'C05': (
         'Coq proof (Q: Raman-off budget, lumped merge, path additivity/permutation invariance, CD pi-cancellation, Euler '
@@ -162,9 +169,10 @@ CLAIMED = {
         'fiber_budget for every lumped list, lumped_merge (sum in dB / product in linear for every position list), path '
         'totals additive and Permutation-invariant, quadrature folds, Euler solver: zero-power factor = step product x '
         'lumped product with each lumped loss once, |ln + alpha L| bounded by 2 sum (alpha dz)^2.',
-        'Raman-on clauses beyond the Euler zero-power limit (perturbative orders 1-4 vs numerical, iterative co/counter '
-        'algorithm, counter-pump gain beyond order 1) are tested numerically with measured tolerances, not proved. R theorems '
-        'use the stdlib real axioms.',
+        'Raman on: perturbative orders 0-4 and the iterative co/counter algorithm are modelled over Num and run at binary64 '
+        'against the solver (1e-9); order-1 low-power bound, lumped-once, Euler agreement in the zero-power limit and the '
+        'backward-sweep step theorems are proved; perturbative orders 2-4 at non-zero power, convergence of the iteration and '
+        'perturbative-vs-numerical agreement are tested with measured tolerances. R theorems use the stdlib real axioms.',
         'DESIGN.md §7 C05, §9'),
     'C19': (
         'Verified validator: response_ok proved equivalent to the declarative Spec; model of ResultElement.json proved to '
@@ -206,8 +214,8 @@ CLAIMED = {
         'no amplifier next to Fused/Transceiver, erase-amps gives back the split chain, names unique, connectors set, every '
         'non-Raman amp-to-amp span >= padding with att_in only on its first fibre.',
         'Multiband kind logic is modelled but not exercised by correspondence; amplifier values are C09; selected varieties '
-        'are inputs. Five open findings (lumped losses on split, Raman span without power, min_length > max_length, padding '
-        'at Fused, Raman split) carry refutation witnesses.',
+        'and Raman gain estimates are inputs. Four open findings (lumped losses on split, min_length > max_length, padding at '
+        'Fused, Raman split) carry refutation witnesses.',
         'DESIGN.md §7 C08'),
     'C17': (
         'Coq proof (amplifier-side export/reload/redesign fixpoint in power mode for any OMS and any number of rounds; '
@@ -216,8 +224,9 @@ CLAIMED = {
         'redesign_fixpoint_partial, n_rounds, design_deterministic, eol_growth (finding F7 as a theorem), '
         'simparams_restored, params_roundtrip_raman/nli; network_to_json(design(x)) vs design(load(export(design(x)))) and '
         'propagation, design twice, vars() of the shared SimParams before/after.',
-        'Whole-line composition and gain mode are tested, not proved. Open findings: EOL re-added, single design band '
-        'dropped, lumped losses not exported, Raman estimate ignoring out_voa, Raman span without power.',
+        'Whole-line fixpoint proved for power mode / EOL = 0 / no Raman fibre; gain mode proved within the export rounding; '
+        'lines with Raman spans are tested. Open findings: EOL re-added on every redesign (F7), Raman estimate ignoring '
+        'out_voa (F22).',
         'DESIGN.md §7 C17'),
 }
 
